@@ -388,6 +388,8 @@ func init() {
 			r.Try(func() { ruleWhoWritesTables(w, r, "R03.10", "R03.10", la) })
 			r.Rule("R03.11", 3, "a service is transient exactly when it was registered so: Descriptor.Lifetime is only ever the Lifetime parameter of the registration call or a copy of the base descriptor's (a descriptor made up at resolution time with another lifetime caches what should be fresh)")
 			r.Try(func() { ruleLifetimeSource(w, r, "R03.11") })
+			r.Rule("R03.12", 1, "what resolution hands out is remembered in the instance tables only: no value that came out of a resolution is stored in a field of a record the container shares")
+			r.Try(func() { ruleNoResolvedValueKept(w, r, "R03.12") })
 			r.Rule("R03.7", 1, "no recycled storage on the resolution path (no sync.Pool)")
 			r.Try(func() { ruleNoPooledInvocationState(w, r, "R03.7") })
 		})
